@@ -256,6 +256,9 @@ def explore(spec: SeqSpec, report, deadline: float | None = None):
             for (_r, h2, _c), probs in zip(new_states, checks):
                 states_checked += 1
                 for clause, detail in probs:
+                    if clause.startswith('__'):
+                        report.stats.append((clause, detail))      # side channel for per-state statistics
+                        continue
                     report.add_violation(_viol(spec, clause, detail, rname, h2, h2[-1] if h2 else None))
             max_depth_done = max(max_depth_done, depth)
             log(f'{spec.prop} root={rname} depth={depth}: frontier={len(frontier)} transitions={root_trans} '
